@@ -65,8 +65,8 @@ def tokens_of_python(value):
         return ("leaf", ("null",))
     if isinstance(value, bool):
         return ("leaf", ("true" if value else "false",))
-    if isinstance(value, int):
-        return ("leaf", (str(value),))
+    if isinstance(value, (int, float)):
+        return ("leaf", tuple(reader.tokens_of_text(repr(value))))
     if isinstance(value, str):
         return ("leaf", ('"', value, '"') if value else ('"', '"'))
     if isinstance(value, list):
@@ -115,6 +115,9 @@ def norm_got(got):
 
 def py_value(rng, tag: int):
     r = rng.random()
+    if r < 0.07:
+        # scalars that compare equal across types in Python (True == 1 == 1.0) but are different Nix values
+        return rng.choice([0, 1, True, False, 1.0, 0.0, 2, 2.0, -1])
     if r < 0.35:
         return tag
     if r < 0.5:
@@ -171,7 +174,7 @@ def generate(seed: int, tier: str) -> dict:
         _, model, scope, _info = m
         scope_ok = True
     else:
-        if dec.error or not dec.shape.editable:
+        if dec.error or not dec.shape.editable or _beyond_mapping_reach(dec):
             return case
         model = tree_of(dec.target)
         scope = tree_of(dec.layers[0]) if len(dec.layers) == 1 else {}
@@ -290,8 +293,20 @@ def _alias_model_from_text(text: str):
     return None, target, scope, {"alias": name}
 
 
+def _beyond_mapping_reach(dec) -> bool:
+    """`source[k]` reaches a call argument only when it is a set literal (possibly in parentheses); the CLI helpers
+    also descend a lambda or a nested call written as argument (`f (x: { … })`) - the mapping API does not."""
+    kinds = dec.shape.kinds()
+    for i, k in enumerate(kinds):
+        if k == "call" and any(x != "paren" for x in kinds[i + 1:]):
+            return True
+    return False
+
+
 def _model_from_text(text: str):
     dec = reader.decode(text)
+    if not dec.error and dec.shape.editable and _beyond_mapping_reach(dec):
+        return None
     if dec.error or not dec.shape.editable:
         return _alias_model_from_text(text) if not dec.error else None
     info: dict = {}
